@@ -344,7 +344,34 @@ def rule_h(R, ctx, rid="C11.h"):
     R.floor(rid, "change computations and paths of event types", n, 10)
 
 
+def rule_i(R, ctx, rid="C11.i"):
+    Y = ctx.yrs
+    R.rule(rid, "R-TABLE bubbling reaches every kind of event: Event::set_current_target (called before each ancestor's deep observers "
+                "run) stores the target into the `current_target` of EVERY variant of Event — kinds_reaching over the Event "
+                "discriminant per store; a kind that falls into a catch-all keeps its initial current_target (the node itself) and "
+                "reports an empty path from every ancestor")
+    fn = Y.fn("yrs::types::Event::set_current_target")
+    names = [v[1] for v in Y.enums.get("yrs::types::Event", [])]
+    if not names:
+        raise F.AnchorLost("enum yrs::types::Event")
+    reached = set()
+    n = 0
+    v = FnView(fn)
+    for i, j, st in fn.stmts():
+        d = st["dst"]
+        if isinstance(d, dict) and d.get("p") and isinstance(d["p"][-1], str) and d["p"][-1].endswith(".current_target"):
+            n += 1
+            src = simp_deep(v.terms.rvalue(st["rv"], 6))
+            ks, used = kinds_reaching(Y, fn, i, enum="yrs::types::Event", place_hint=None, names=names)
+            if used and src[0] == "param" and fn.local_name(src[1]) == "target":
+                reached |= ks
+    R.floor(rid, "stores of current_target in set_current_target", n, 5)
+    R.ob(rid, fn, "every-kind", reached == set(names), "current_target is stored for %s" % sorted(reached) if reached == set(names) else
+         "no store of current_target for Event::%s" % sorted(set(names) - reached))
+
+
 def check(ctx, R):
+    R.run("C11.i", rule_i, ctx)
     R.run("C11.a", rule_a, ctx)
     R.run("C11.h", rule_h, ctx)
     R.run("C11.b", rule_b, ctx)
